@@ -32,6 +32,11 @@ Case vf_generate() {
         for (int k = 0; k < comps; k++) { n += pt::gen_stem(0); if (vf::chance(50)) n += "#" + std::to_string(vf::pick<int>(1, 3)); n += "/"; }
         p.name = n;
       }
+  // sub-tree ports may carry an argument specification as well ("cfg/::i" style); this one admits every type string the
+  // dispatch-back below sends, so that a reported leaf stays reachable
+  for (auto &tb : c.tree.tables)
+    for (auto &p : tb.ports)
+      if (p.subtree() && p.kind != pt::MULTI && p.name.find(':') == std::string::npos && vf::chance(15)) p.name += "::i:ii:T:s";
   pt::decorate_enabled(c.tree);
   c.runtime = vf::chance(60);
   if (vf::chance(30)) c.prefix = "/" + vf::strover("xyz", 1, 3) + "/";
